@@ -17,6 +17,8 @@ PROFILE = {
     "p_retryable": 0.8,
     "max_dur": 16,
     "max_delay_ticks": 32,
+    "attempt_timeout": 0.1,
+    "multi_call": (1, 2),
 }
 ENTRIES = C.CALL_ENTRIES + ["Retry.context.call", "AsyncRetry.context.call", "Policy.context.call", "AsyncPolicy.context.call", "decorator.call", "adecorator.call"]
 
